@@ -128,6 +128,11 @@ impl Server {
         g.seen.clear();
     }
 
+    /// How many requests were received since `arm`, so far.
+    pub fn seen_count(&self) -> usize {
+        self.st.lock().unwrap().seen.len()
+    }
+
     /// The requests received since `arm` (waits until no connection is being served any more).
     pub async fn take(&self) -> Vec<Seen> {
         loop {
